@@ -8,7 +8,7 @@ import OG.C14.Index
 namespace OG.C14.IxFacts
 open OG.Gen.C14 OG.C14
 
-theorem src_ExpiredIndexes_expected : src_ExpiredIndexes = "{ e.mu.RLock() defer e.mu.RUnlock() var res []*meta2.IndexIdentifier for db := range e.DBPartitions { for _, pti := range e.DBPartitions[db] { pti.mu.RLock() for idxId := range e.DBPartitions[db][pti.id].indexBuilder { iBuilder := e.DBPartitions[db][pti.id].indexBuilder[idxId] if iBuilder.Expired() && !pti.indexHeldByLiveShardNoLock(iBuilder) { res = append(res, iBuilder.Ident()) } } for idxId, info := range *nilIndexMap { if e.containIdxid(res, idxId) { continue } if e.nilShardIsExpired(info.DurationInfo.Duration, info.Ident.EndTime) { index := meta2.IndexDescriptor{ IndexID: info.Ident.IndexID, IndexGroupID: info.Ident.IndexGroupID, TimeRange: meta2.TimeRangeInfo{ StartTime: info.Ident.StartTime, EndTime: info.Ident.EndTime, }, } res = append(res, &meta2.IndexIdentifier{ OwnerDb: info.Ident.OwnerDb, OwnerPt: info.Ident.OwnerPt, Policy: info.Ident.Policy, Index: &index, }) } } pti.mu.RUnlock() } } return res }" := by rfl
+theorem src_ExpiredIndexes_expected : src_ExpiredIndexes = "{ e.mu.RLock() defer e.mu.RUnlock() var res []*meta2.IndexIdentifier for db := range e.DBPartitions { for _, pti := range e.DBPartitions[db] { pti.mu.RLock() for idxId := range e.DBPartitions[db][pti.id].indexBuilder { iBuilder := e.DBPartitions[db][pti.id].indexBuilder[idxId] if iBuilder.Expired() && !pti.indexHeldByLiveShardNoLock(iBuilder) { res = append(res, iBuilder.Ident()) } } for idxId, info := range *nilIndexMap { if e.containIdxid(res, idxId) { continue } if _, loaded := pti.indexBuilder[idxId]; loaded { continue } if e.nilShardIsExpired(info.DurationInfo.Duration, info.Ident.EndTime) { index := meta2.IndexDescriptor{ IndexID: info.Ident.IndexID, IndexGroupID: info.Ident.IndexGroupID, TimeRange: meta2.TimeRangeInfo{ StartTime: info.Ident.StartTime, EndTime: info.Ident.EndTime, }, } res = append(res, &meta2.IndexIdentifier{ OwnerDb: info.Ident.OwnerDb, OwnerPt: info.Ident.OwnerPt, Policy: info.Ident.Policy, Index: &index, }) } } pti.mu.RUnlock() } } return res }" := by rfl
 
 theorem src_ExpiredCacheIndexes_expected : src_ExpiredCacheIndexes = "{ e.mu.RLock() defer e.mu.RUnlock() var res []*meta2.IndexIdentifier for db := range e.DBPartitions { for _, pti := range e.DBPartitions[db] { pti.mu.RLock() for idxId := range e.DBPartitions[db][pti.id].indexBuilder { if e.DBPartitions[db][pti.id].indexBuilder[idxId].ExpiredCache() { res = append(res, e.DBPartitions[db][pti.id].indexBuilder[idxId].Ident()) } } pti.mu.RUnlock() } } return res }" := by rfl
 
